@@ -172,25 +172,30 @@ pub fn record_sat(args: &Args) {
 
 // ------------------------------------------------------------------ top-down compilation (C06)
 
-fn td_segment<'a, B: DecisionNNFBuilder<'a>>(b: &'a B, cnf: &Cnf, nv: usize, rng: &mut Rng, out: &mut Out) {
+fn td_segment<'a, B: DecisionNNFBuilder<'a>>(b: &'a B, cnfs: &[Cnf], nv: usize, rng: &mut Rng, out: &mut Out) {
     let mut ids = Ids::new();
-    let mut ev = json!({"ev": "compile"});
-    let r = match guarded(|| b.compile_cnf_topdown(cnf)) {
-        Ok(r) => r,
-        Err(m) => {
-            ev["panic"] = json!(m);
-            out.emit(ev);
-            return;
-        }
-    };
-    let mut newn = vec![];
-    ev["root"] = json!(ids.ptr(r, &mut newn));
-    ev["nodes"] = json!(newn);
-    ev["res"] = json!(2);
-    out.emit(ev);
-    // slots: 0 True, 1 False, 2 = result, 3 = its negation, 4.. = conditioned diagrams
-    let mut pool: Vec<BddPtr<'a>> = vec![BddPtr::PtrTrue, BddPtr::PtrFalse, r, r.neg()];
-    out.emit(json!({"ev": "tneg", "a": [2], "res": 3, "root": ids.ptr(r.neg(), &mut vec![]), "nodes": []}));
+    // slots: 0 True, 1 False, then per compiled CNF its result and its negation, then conditioned diagrams
+    let mut pool: Vec<BddPtr<'a>> = vec![BddPtr::PtrTrue, BddPtr::PtrFalse];
+    for cnf in cnfs {
+        let mut ev = json!({"ev": "compile", "cnf": stored_json(cnf)});
+        let r = match guarded(|| b.compile_cnf_topdown(cnf)) {
+            Ok(r) => r,
+            Err(m) => {
+                ev["panic"] = json!(m);
+                out.emit(ev);
+                return;
+            }
+        };
+        let mut newn = vec![];
+        ev["root"] = json!(ids.ptr(r, &mut newn));
+        ev["nodes"] = json!(newn);
+        ev["res"] = json!(pool.len());
+        out.emit(ev);
+        pool.push(r);
+        out.emit(json!({"ev": "tneg", "a": [pool.len() - 1], "res": pool.len(), "root": ids.ptr(r.neg(), &mut vec![]), "nodes": []}));
+        pool.push(r.neg());
+    }
+    let base = pool.len();
     if nv == 0 {
         return;
     }
@@ -205,11 +210,11 @@ fn td_segment<'a, B: DecisionNNFBuilder<'a>>(b: &'a B, cnf: &Cnf, nv: usize, rng
                 ev["root"] = json!(ids.ptr(c, &mut newn));
                 ev["nodes"] = json!(newn);
                 ev["dirty"] = json!(ids.dirty());
-                if pool.len() < 10 {
+                if pool.len() < base + 6 {
                     pool.push(c);
                     ev["res"] = json!(pool.len() - 1);
                 } else {
-                    let s = 4 + rng.below(6);
+                    let s = base + rng.below(6);
                     pool[s] = c;
                     ev["res"] = json!(s);
                 }
@@ -285,18 +290,49 @@ pub fn record_topdown(args: &Args) {
         }
         let cnf = mk_cnf(&c);
         let nv = cnf.num_vars();
+        // one builder may compile several CNFs over the same variables: later compilations meet the nodes
+        // (and, in the semantic store, the hashes and negated hashes) of earlier ones
+        let mut cnfs = vec![cnf.clone()];
+        if nv > 0 {
+            match rng.below(3) {
+                0 => {
+                    // the exact negation of a clause: a disjunction, then the units of its negated literals
+                    let w = rng.range(1, nv.min(3));
+                    let vars = rng.perm(nv);
+                    let cl: Vec<(usize, bool)> = vars[..w].iter().map(|v| (*v, rng.coin())).collect();
+                    let units: Vec<Vec<(usize, bool)>> = cl.iter().map(|(v, p)| vec![(*v, !*p)]).collect();
+                    let mut pad = vec![cl];
+                    // keep num_vars equal to nv: mention the last variable in a tautology-free way if needed
+                    if !pad[0].iter().any(|(v, _)| *v == nv - 1) {
+                        pad.push(vec![(nv - 1, true), (nv - 1, false)]);
+                    }
+                    let mut upad = units;
+                    if !upad.iter().flatten().any(|(v, _)| *v == nv - 1) {
+                        upad.push(vec![(nv - 1, true), (nv - 1, false)]);
+                    }
+                    cnfs = vec![mk_cnf(&pad), mk_cnf(&upad), cnf.clone()];
+                }
+                1 => {
+                    let mut c2 = rand_cnf(&mut rng, nv, 6, 25);
+                    c2.push(vec![(nv - 1, true), (nv - 1, false)]);
+                    cnfs.push(mk_cnf(&c2));
+                }
+                _ => {}
+            }
+        }
+        cnfs.retain(|c| c.num_vars() == nv);
         let order = rng.perm(nv);
         let store = if rng.coin() { "std" } else { "sem" };
         let tcap = *rng.pick(&[0usize, 0, 2, 8]);
         rsdd::verif::set_table_capacity(tcap);
-        out.emit(json!({"ev": "treset", "nv": nv, "cnf": stored_json(&cnf), "order": order, "store": store, "tcap": tcap}));
+        out.emit(json!({"ev": "treset", "nv": nv, "order": order, "store": store, "tcap": tcap}));
         let ord = VarOrder::new(&order.iter().map(|v| VarLabel::new_usize(*v)).collect::<Vec<_>>());
         if store == "std" {
             let b = StandardDecisionNNFBuilder::new(ord);
-            td_segment(&b, &cnf, nv, &mut rng, &mut out);
+            td_segment(&b, &cnfs, nv, &mut rng, &mut out);
         } else {
             let b = SemanticDecisionNNFBuilder::<{ primes::U64_LARGEST }>::new(ord);
-            td_segment(&b, &cnf, nv, &mut rng, &mut out);
+            td_segment(&b, &cnfs, nv, &mut rng, &mut out);
         }
     }
     rsdd::verif::set_table_capacity(0);
